@@ -24,9 +24,19 @@ def main():
     from vmon.core import libs, digests
     from vmon.core.obs import observe
     out = {'values': {}, 'descriptors': {}, 'digests': {}}
+
+    def arg_of(key):
+        # 'mol:<smiles>' / 'molH:<smiles>': the molecule handed over as an
+        # RDKit object (without / with explicit hydrogens)
+        from rdkit import Chem
+        if key.startswith('mol:'):
+            return Chem.MolFromSmiles(key[4:])
+        if key.startswith('molH:'):
+            return Chem.AddHs(Chem.MolFromSmiles(key[5:]))
+        return key
     for lib_name, smi, evals in req.get('keys', []):
         lib = libs.fresh(lib_name)
-        d = observe(lib.GetDescriptors, smi)
+        d = observe(lib.GetDescriptors, arg_of(smi))
         k = '%s|%s' % (lib_name, smi)
         if 'exc' in d:
             out['descriptors'][k] = {'exc': d['exc']}
@@ -35,7 +45,8 @@ def main():
                                         dict(d['ok']).items()}}
         for prop, T, s_el in evals:
             lib2 = libs.fresh(lib_name) if req.get('strict') else lib
-            dd = lib2.GetDescriptors(smi) if req.get('strict') else d['ok']
+            dd = lib2.GetDescriptors(arg_of(smi)) if req.get('strict') \
+                else d['ok']
             e = observe(lib2.Estimate, dd, 'thermochem')
             kk = '%s|%s|%s|%r|%r' % (lib_name, smi, prop, T, s_el)
             if 'exc' in e:
